@@ -1,6 +1,8 @@
 package main
 
 import (
+	crand "crypto/rand"
+	"errors"
 	"flag"
 	"fmt"
 	"math/rand"
@@ -36,6 +38,13 @@ func (s *c20Source) Int63() int64 {
 	return 0
 }
 func (s *c20Source) Seed(int64) {}
+
+// a failing entropy source, and the lock that keeps the swap of crypto/rand.Reader away from concurrent cases
+type c20FailReader struct{}
+
+func (c20FailReader) Read(p []byte) (int, error) { return 0, errors.New("entropy source unavailable") }
+
+var c20SrcMu sync.RWMutex
 
 // the extracted Coq judge for IdGenerator observations (Run/C20.v, sub 3) runs in model processes owned by this file
 var (
@@ -96,6 +105,10 @@ func c20Impl(in []int64) []int64 {
 		return out
 	case 2:
 		rb, e, k, gap := in[1], c20Join(in[2], in[3]), int(in[4]), in[5]
+		// gap >= 100: the entropy source fails (crypto/rand.Reader replaced by a failing reader for the call), so
+		// that Generate takes its math/rand fallback; the layout judge is the same
+		failSrc := gap >= 100
+		gap %= 100
 		start := time.Now().Add(-time.Duration(e) * time.Millisecond)
 		g := randz.NewIdGenerator(start, int(rb))
 		obs := []int64{rb}
@@ -103,9 +116,20 @@ func c20Impl(in []int64) []int64 {
 			if i > 0 && gap > 0 {
 				time.Sleep(time.Duration(gap) * time.Millisecond)
 			}
+			var restore func()
+			if failSrc {
+				c20SrcMu.Lock()
+				old := crand.Reader
+				crand.Reader = c20FailReader{}
+				restore = func() { crand.Reader = old; c20SrcMu.Unlock() }
+			} else {
+				c20SrcMu.RLock()
+				restore = c20SrcMu.RUnlock
+			}
 			e0 := time.Since(start).Milliseconds()
 			id := g.Generate()
 			e1 := time.Since(start).Milliseconds()
+			restore()
 			a, b := c20Halves(id.Int64())
 			c, d := c20Halves(e0)
 			x, y := c20Halves(e1)
@@ -279,7 +303,12 @@ func c20Gen(c *Ctx) {
 		hi, lo := c20Halves(ev)
 		t.C.Count("idgen-elapsed", e.name)
 		t.C.Count("idgen-randbit", fmt.Sprint(rb))
-		t.Try("idgen", []int64{2, rb, hi, lo, int64(k), gap}, true)
+		fam := "idgen"
+		if i%3 == 2 {
+			gap += 100
+			fam = "idgen-entropy-source-fails"
+		}
+		t.Try(fam, []int64{2, rb, hi, lo, int64(k), gap}, true)
 	})
 	// ---- StrGenerator with scripted randomness
 	css := c20Charsets()
